@@ -2,10 +2,12 @@
   Umbrella of property C03: the abstract recovery theorems for an exact right-hand side and the rounding bounds
   (Props/C03.lean) and the link to the assembled matrix — the model's normalised matrix maps the true tensions to the
   velocity right-hand side `set_velocity_matrix` builds, end-to-end dynamic recovery, time-step independence
-  (Props/C03matrix.lean).
+  (Props/C03matrix.lean); the quantitative bounds for the right-hand side rounded to three decimals and a certified
+  solver output (Props/C05bound.lean: dynamic_rounded_recovery, dynamic_rounded_certified_recovery).
   lean/props.json names this module for C03, so that `./check C03` builds and audits both.
 -/
 import ForsysModel.Props.C03
 import ForsysModel.Props.C03matrix
 import ForsysModel.Props.C13relabel
 import ForsysModel.Props.C12relabel
+import ForsysModel.Props.C05bound
